@@ -630,6 +630,34 @@ pub fn wait_until<F: Fn() -> bool>(what: &str, condition: F) -> Result<(), Waite
     Ok(())
 }
 
+/// A group of harness threads whose completion is awaited with the logical hang test instead of a blind join: a thread stuck
+/// inside an API call of the cache (a full queue behind a dead or wedged worker, a shutdown() that never returns) is a
+/// finding, not a reason for the monitor to hang as well. Threads that never finish are leaked.
+pub struct Crew<T> {
+    handles: Vec<thread::JoinHandle<T>>,
+    finished: Arc<AtomicU64>,
+}
+
+struct FinishGuard(Arc<AtomicU64>);
+impl Drop for FinishGuard { fn drop(&mut self) { self.0.fetch_add(1, Ordering::SeqCst); } }
+
+impl<T: Send + 'static> Crew<T> {
+    pub fn new() -> Self { Crew { handles: Vec::new(), finished: Arc::new(AtomicU64::new(0)) } }
+    pub fn spawn<F: FnOnce() -> T + Send + 'static>(&mut self, work: F) {
+        let finished = self.finished.clone();
+        self.handles.push(thread::spawn(move || { let _guard = FinishGuard(finished); work() }));
+    }
+    pub fn len(&self) -> usize { self.handles.len() }
+    pub fn finished(&self) -> u64 { self.finished.load(Ordering::SeqCst) }
+    /// Ok(results of the threads that ended normally) once all have ended; Err(classification) if they cannot all end.
+    pub fn join(self, what: &str) -> Result<Vec<T>, Waited> {
+        let n = self.handles.len() as u64;
+        let finished = self.finished.clone();
+        wait_until(what, move || finished.load(Ordering::SeqCst) >= n)?;
+        Ok(self.handles.into_iter().filter_map(|h| h.join().ok()).collect())
+    }
+}
+
 /// Bounded polling for a condition a directed scenario hopes to reach (a window); not reaching it is no verdict.
 pub fn poll_until<F: Fn() -> bool>(max: Duration, condition: F) -> bool {
     let started = Instant::now();
